@@ -149,25 +149,57 @@ static bool parseQueries(const std::vector<std::string>& a, size_t& i, Request& 
     for (int k = 0; k < nu; k++) { if (i >= a.size()) return false; r.us.push_back(widen(a[i])); r.usN.push_back(a[i]); i++; }
     return true;
 }
-static std::string txt(const std::string& s) { return s == "-" ? std::string() : s; }
+// attribute value token -> the text written in the document: plain characters, {s} {t} {n} {r} literal space / TAB / LF /
+// CR, {#HEX} character reference, {&name} entity reference (predefined or declared in the ENT part); "-" = empty
+static std::string txt(const std::string& s) {
+    if (s == "-") return std::string();
+    std::string out;
+    for (size_t i = 0; i < s.size(); i++) {
+        if (s[i] != '{') { out += s[i]; continue; }
+        size_t j = s.find('}', i);
+        if (j == std::string::npos) { out += s[i]; continue; }
+        std::string g = s.substr(i + 1, j - i - 1);
+        if (g == "s") out += ' ';
+        else if (g == "t") out += '\t';
+        else if (g == "n") out += '\n';
+        else if (g == "r") out += '\r';
+        else if (!g.empty() && g[0] == '#') out += "&#x" + g.substr(1) + ";";
+        else if (!g.empty() && g[0] == '&') out += g + ";";
+        i = j;
+    }
+    return out;
+}
 // renders the token list to XML text
 static bool render(const std::vector<std::string>& a, size_t i, bool v11, std::string& out) {
     std::vector<std::string> open;
     // always with a declaration: a reused scanner keeps the XML version of the previous document otherwise
     out += v11 ? "<?xml version=\"1.1\"?>" : "<?xml version=\"1.0\"?>";
     // optional internal DTD subset with attribute defaults: DTD <n> {<element> <apfx> <alocal> <D|F> <value>}*n
+    std::string decls;
+    bool haveDtd = false;
+    // optional internal entities: ENT <m> {<name> <value token>}*m
+    if (i < a.size() && a[i] == "ENT") {
+        if (i + 1 >= a.size()) return false;
+        int m = atoi(a[i + 1].c_str());
+        i += 2;
+        if (i + 2 * (size_t)m >= a.size()) return false;
+        for (int k = 0; k < m; k++, i += 2) decls += "<!ENTITY " + a[i] + " \"" + txt(a[i + 1]) + "\">";
+        haveDtd = true;
+    }
     if (i < a.size() && a[i] == "DTD") {
         if (i + 1 >= a.size()) return false;
         int n = atoi(a[i + 1].c_str());
         i += 2;
         if (i + 5 * (size_t)n >= a.size()) return false;
-        std::string decls;
+        haveDtd = true;
         for (int k = 0; k < n; k++, i += 5) {
             std::string an = txt(a[i + 1]).empty() ? a[i + 2] : a[i + 1] + ":" + a[i + 2];
             decls += "<!ATTLIST " + a[i] + " " + an + " CDATA " + (a[i + 3] == "F" ? "#FIXED " : "") + "\"" + txt(a[i + 4]) + "\">";
         }
+    }
+    if (haveDtd) {
         // the document element is the first start tag
-        if (a[i] != "S" || i + 2 >= a.size()) return false;
+        if (i >= a.size() || a[i] != "S" || i + 2 >= a.size()) return false;
         std::string root = txt(a[i + 1]).empty() ? a[i + 2] : a[i + 1] + ":" + a[i + 2];
         out += "<!DOCTYPE " + root + " [" + decls + "]>";
     }
